@@ -2137,3 +2137,200 @@ Proof.
     + inv_bind He. inversion He; subst; clear He. destruct x as [r1 c]. cbn [fst].
       apply step_lt_mono in Hx; [|discriminate]. destruct Hx as [A B]. split; [exact A|exact B].
 Qed.
+
+(* ------------------------------------------------------------------ *)
+(* RawNode: every entry point of M/RawNode.v as one input alphabet *)
+Inductive rn_input :=
+| RnStep (m : msg) | RnTick | RnCampaign
+| RnPropose (ctx data : list N) | RnProposeConfChange (ctx data : list N) (ty cci : N)
+| RnApplyConfChange (cc : ccv2) | RnPing | RnReady
+| RnAdvance (rd : ready) | RnAdvanceAppend (rd : ready) | RnAdvanceAppendAsync (rd : ready)
+| RnAdvanceApply | RnAdvanceApplyTo (a : N) | RnOnPersistReady (number : N)
+| RnReportUnreachable (id : N) | RnReportSnapshot (id : N) (failure : bool)
+| RnRequestSnapshot | RnTransferLeader (id : N) | RnReadIndex (rctx : list N).
+
+Definition rn_apply (n : rawnode) (i : rn_input) : Res rawnode :=
+  match i with
+  | RnStep m => x <- rn_step n m ;; Ok (fst x)
+  | RnTick => x <- rn_tick n ;; Ok (fst x)
+  | RnCampaign => x <- rn_campaign n ;; Ok (fst x)
+  | RnPropose ctx data => x <- rn_propose n ctx data ;; Ok (fst x)
+  | RnProposeConfChange ctx data ty cci => x <- rn_propose_conf_change n ctx data ty cci ;; Ok (fst x)
+  | RnApplyConfChange cc => x <- rn_apply_conf_change n cc ;; Ok (fst x)
+  | RnPing => rn_ping n
+  | RnReady => x <- rn_ready n ;; Ok (fst x)
+  | RnAdvance rd => x <- rn_advance n rd ;; Ok (fst x)
+  | RnAdvanceAppend rd => x <- rn_advance_append n rd ;; Ok (fst x)
+  | RnAdvanceAppendAsync rd => rn_advance_append_async n rd
+  | RnAdvanceApply => rn_advance_apply n
+  | RnAdvanceApplyTo a => rn_advance_apply_to n a
+  | RnOnPersistReady number => rn_on_persist_ready n number
+  | RnReportUnreachable id => rn_report_unreachable n id
+  | RnReportSnapshot id f => rn_report_snapshot n id f
+  | RnRequestSnapshot => x <- rn_request_snapshot n ;; Ok (fst x)
+  | RnTransferLeader id => rn_transfer_leader n id
+  | RnReadIndex rctx => rn_read_index n rctx
+  end.
+
+(* the message an input hands to Raft::step, if any ([rid] = the node's own id) *)
+Definition input_msg (rid : N) (i : rn_input) : option msg :=
+  match i with
+  | RnStep m => Some m
+  | RnCampaign => Some (msg_default <| m_type := MsgHup |>)
+  | RnPropose ctx data =>
+      Some (msg_default <| m_type := MsgPropose |> <| m_from := rid |>
+              <| m_entries := [mkEntry EntryNormal 0 0 data ctx] |> <| m_ccinfo := [0] |>)
+  | RnProposeConfChange ctx data ty cci =>
+      Some (msg_default <| m_type := MsgPropose |>
+              <| m_entries := [mkEntry ty 0 0 data ctx] |> <| m_ccinfo := [cci] |>)
+  | RnReportUnreachable id => Some (msg_default <| m_type := MsgUnreachable |> <| m_from := id |>)
+  | RnReportSnapshot id f =>
+      Some (msg_default <| m_type := MsgSnapStatus |> <| m_from := id |> <| m_reject := f |>)
+  | RnTransferLeader id => Some (msg_default <| m_type := MsgTransferLeader |> <| m_from := id |>)
+  | RnReadIndex rctx =>
+      Some (msg_default <| m_type := MsgReadIndex |> <| m_entries := [mkEntry EntryNormal 0 0 rctx []] |>)
+  | _ => None
+  end.
+
+(* no MsgTimeoutNow is added to the queue (the queue may be drained into a Ready) *)
+Definition tn_sub (r r' : raft) : Prop :=
+  incl (sel MsgTimeoutNow (r_msgs r')) (sel MsgTimeoutNow (r_msgs r)).
+
+Definition rn_quiet (r r' : raft) : Prop := ctl r' = ctl r /\ tn_sub r r'.
+
+Lemma rn_quiet_refl r : rn_quiet r r.
+Proof. split; [reflexivity|apply incl_refl]. Qed.
+Lemma rn_quiet_trans a b c : rn_quiet a b -> rn_quiet b c -> rn_quiet a c.
+Proof. intros [A B] [C0 D]. split; [congruence|]. unfold tn_sub in *. eapply incl_tran; eassumption. Qed.
+Lemma cf_rn_quiet r r' : cf MsgTimeoutNow r r' -> rn_quiet r r'.
+Proof. intros [A B]. split; [exact B|]. unfold tn_sub. rewrite A. apply incl_refl. Qed.
+
+Lemma gen_light_ready_quiet n n' l :
+  gen_light_ready n = Ok (n', l) -> rn_quiet (rn_raft n) (rn_raft n').
+Proof.
+  intros H. unfold gen_light_ready in H. inv_bind H. inv_bind H. inversion H; subst; clear H.
+  match goal with |- rn_quiet _ ?t =>
+    change t with
+      ((reduce_uncommitted_size (rn_raft n) match x with Some v => v | None => [] end)
+         <| r_msgs := [] |>) end.
+  eapply rn_quiet_trans; [apply cf_rn_quiet; apply reduce_uncommitted_size_cf|].
+  split; [reflexivity|]. unfold tn_sub. cbn. intros y [].
+Qed.
+
+Lemma rn_ready_quiet n n' rd : rn_ready n = Ok (n', rd) -> rn_quiet (rn_raft n) (rn_raft n').
+Proof.
+  intros H. unfold rn_ready in H. cbn zeta in H. inv_bind H. inv_bind H.
+  destruct x0 as [[[snap csi] rec_snap] ms2]. inv_bind H. destruct x0 as [n2 light].
+  inversion H; subst; clear H. apply gen_light_ready_quiet in Hx1.
+  cbn [rn_raft set] in Hx1 |- *.
+  eapply rn_quiet_trans; [|exact Hx1]. split; [reflexivity|apply incl_refl].
+Qed.
+
+Lemma commit_ready_quiet n rd n' : commit_ready n rd = Ok n' -> rn_quiet (rn_raft n) (rn_raft n').
+Proof.
+  intros H. unfold commit_ready in H. cbn zeta in H.
+  match type of H with match ?d with _ => _ end = _ => destruct d eqn:Er end; [discriminate|].
+  match type of H with (if ?c then _ else _) = _ => destruct c end; [discriminate|].
+  inv_bind H. inv_bind H. inversion H; subst; clear H. cbn [rn_raft set].
+  destruct (rd_ss rd); destruct (rd_hs rd); cbn; split; try reflexivity; apply incl_refl.
+Qed.
+
+Lemma rn_on_persist_ready_quiet n num n' :
+  rn_on_persist_ready n num = Ok n' -> rn_quiet (rn_raft n) (rn_raft n').
+Proof.
+  intros H. unfold rn_on_persist_ready in H.
+  destruct (fold_records (rn_records n) num 0 0 0) as [[[recs index] t] snap_index].
+  inv_bind H. inv_bind H. inversion H; subst; clear H. cbn [rn_raft set] in *.
+  assert (A : rn_quiet (rn_raft n) x).
+  { destruct (negb (snap_index =? 0)); [|inversion Hx; apply rn_quiet_refl].
+    apply cf_rn_quiet. eapply on_persist_snap_cf. exact Hx. }
+  assert (B : rn_quiet x x0).
+  { destruct (negb (index =? 0)); [|inversion Hx0; apply rn_quiet_refl].
+    apply cf_rn_quiet. eapply on_persist_entries_cf. exact Hx0. }
+  eapply rn_quiet_trans; eassumption.
+Qed.
+
+Lemma rn_advance_append_quiet n rd n' l :
+  rn_advance_append n rd = Ok (n', l) -> rn_quiet (rn_raft n) (rn_raft n').
+Proof.
+  intros H. unfold rn_advance_append in H. inv_bind H. inv_bind H. inv_bind H.
+  destruct x1 as [n3 light].
+  apply commit_ready_quiet in Hx. apply rn_on_persist_ready_quiet in Hx0.
+  apply gen_light_ready_quiet in Hx1.
+  assert (E : rn_raft n' = rn_raft n3).
+  { match type of H with (if ?c then _ else _) = _ => destruct c end; [discriminate|].
+    inv_bind H. destruct x1 as [n4 ci].
+    match type of H with (if ?c then _ else _) = _ => destruct c end; [discriminate|].
+    inversion H; subst; clear H.
+    match type of Hx2 with (if ?c then _ else _) = _ => destruct c end;
+      [inversion Hx2; reflexivity|].
+    match type of Hx2 with (if ?c then _ else _) = _ => destruct c end; [discriminate|].
+    inversion Hx2; reflexivity. }
+  rewrite E. eapply rn_quiet_trans; [exact Hx|]. eapply rn_quiet_trans; eassumption.
+Qed.
+
+Lemma rn_advance_apply_to_quiet n a n' :
+  rn_advance_apply_to n a = Ok n' -> rn_quiet (rn_raft n) (rn_raft n').
+Proof.
+  intros H. unfold rn_advance_apply_to, lift, commit_apply in H. inv_bind H.
+  inversion H; subst; clear H. cbn [rn_raft set].
+  apply cf_rn_quiet. eapply commit_apply_internal_cf. exact Hx.
+Qed.
+
+(* what one RawNode input does to the Raft inside *)
+Inductive rn_effect (n : rawnode) (i : rn_input) (n' : rawnode) : Prop :=
+| RE_none : rn_raft n' = rn_raft n -> rn_effect n i n'
+| RE_step m c : input_msg (r_id (rn_raft n)) i = Some m ->
+    step (rn_raft n) m = Ok (rn_raft n', c) -> rn_effect n i n'
+| RE_tick b : i = RnTick -> tick (rn_raft n) = Ok (rn_raft n', b) -> rn_effect n i n'
+| RE_conf cc ocs : i = RnApplyConfChange cc ->
+    raft_apply_conf_change (rn_raft n) cc = Ok (rn_raft n', ocs) -> rn_effect n i n'
+| RE_quiet : input_msg (r_id (rn_raft n)) i = None -> i <> RnTick ->
+    rn_quiet (rn_raft n) (rn_raft n') -> rn_effect n i n'.
+
+Lemma rn_apply_effect n i n' : rn_apply n i = Ok n' -> rn_effect n i n'.
+Proof.
+  intros H. destruct i; cbn [rn_apply] in H.
+  - (* step *) inv_bind H. inversion H; subst; clear H. unfold rn_step in Hx.
+    destruct (is_local_msg (m_type m)); [inversion Hx; apply RE_none; reflexivity|].
+    match type of Hx with (if ?c then _ else _) = _ => destruct c end;
+      [|inversion Hx; apply RE_none; reflexivity].
+    unfold lift2 in Hx. inv_bind Hx. inversion Hx; subst; clear Hx. destruct x0 as [r1 c].
+    eapply RE_step; [reflexivity|exact Hx0].
+  - inv_bind H. inversion H; subst; clear H. unfold rn_tick in Hx. inv_bind Hx.
+    inversion Hx; subst; clear Hx. destruct x0 as [r1 b]. eapply RE_tick; [reflexivity|exact Hx0].
+  - inv_bind H. inversion H; subst; clear H. unfold rn_campaign, lift2 in Hx. inv_bind Hx.
+    inversion Hx; subst; clear Hx. destruct x0 as [r1 c]. eapply RE_step; [reflexivity|exact Hx0].
+  - inv_bind H. inversion H; subst; clear H. unfold rn_propose, lift2 in Hx. inv_bind Hx.
+    inversion Hx; subst; clear Hx. destruct x0 as [r1 c]. eapply RE_step; [reflexivity|exact Hx0].
+  - inv_bind H. inversion H; subst; clear H. unfold rn_propose_conf_change, lift2 in Hx. inv_bind Hx.
+    inversion Hx; subst; clear Hx. destruct x0 as [r1 c]. eapply RE_step; [reflexivity|exact Hx0].
+  - inv_bind H. inversion H; subst; clear H. unfold rn_apply_conf_change in Hx. inv_bind Hx.
+    inversion Hx; subst; clear Hx. destruct x0 as [r1 ocs]. eapply RE_conf; [reflexivity|exact Hx0].
+  - unfold rn_ping, lift in H. inv_bind H. inversion H; subst; clear H.
+    apply RE_quiet; [reflexivity|discriminate|]. apply cf_rn_quiet. eapply ping_cf. exact Hx.
+  - inv_bind H. inversion H; subst; clear H. destruct x as [n1 rd].
+    apply RE_quiet; [reflexivity|discriminate|]. eapply rn_ready_quiet. exact Hx.
+  - inv_bind H. inversion H; subst; clear H. unfold rn_advance in Hx. inv_bind Hx. inv_bind Hx.
+    inversion Hx; subst; clear Hx. destruct x0 as [n1 l]. cbn [fst snd] in *.
+    apply RE_quiet; [reflexivity|discriminate|].
+    apply rn_advance_append_quiet in Hx0. apply rn_advance_apply_to_quiet in Hx1.
+    eapply rn_quiet_trans; eassumption.
+  - inv_bind H. inversion H; subst; clear H. destruct x as [n1 l].
+    apply RE_quiet; [reflexivity|discriminate|]. eapply rn_advance_append_quiet. exact Hx.
+  - apply RE_quiet; [reflexivity|discriminate|]. eapply commit_ready_quiet. exact H.
+  - apply RE_quiet; [reflexivity|discriminate|]. eapply rn_advance_apply_to_quiet. exact H.
+  - apply RE_quiet; [reflexivity|discriminate|]. eapply rn_advance_apply_to_quiet. exact H.
+  - apply RE_quiet; [reflexivity|discriminate|]. eapply rn_on_persist_ready_quiet. exact H.
+  - unfold rn_report_unreachable in H. inv_bind H. inversion H; subst; clear H.
+    destruct x as [r1 c]. eapply RE_step; [reflexivity|exact Hx].
+  - unfold rn_report_snapshot in H. inv_bind H. inversion H; subst; clear H.
+    destruct x as [r1 c]. eapply RE_step; [reflexivity|exact Hx].
+  - inv_bind H. inversion H; subst; clear H. unfold rn_request_snapshot, lift2 in Hx. inv_bind Hx.
+    inversion Hx; subst; clear Hx. destruct x0 as [r1 c].
+    apply RE_quiet; [reflexivity|discriminate|]. apply cf_rn_quiet. eapply request_snapshot_cf. exact Hx0.
+  - unfold rn_transfer_leader in H. inv_bind H. inversion H; subst; clear H.
+    destruct x as [r1 c]. eapply RE_step; [reflexivity|exact Hx].
+  - unfold rn_read_index in H. inv_bind H. inversion H; subst; clear H.
+    destruct x as [r1 c]. eapply RE_step; [reflexivity|exact Hx].
+Qed.
